@@ -216,7 +216,7 @@ def st_tape(draw, maxlen=48):
 
 @st.composite
 def st_dw_case(draw, tier="quick", versions=(6, 6, 6, 2, 3, 7, 8), maxdim=3, lmin_max=2, maxev_hi=None, margins=(0.9, 0.5, 1.0, 0.0),
-               safeties=(0.1, 0.0, 0.5), scales=False, bounds_forms=False):
+               safeties=(0.1, 0.0, 0.5), scales=False, bounds_forms=False, fbt=False):
     dim = draw(st.integers(1, maxdim))
     lmin = draw(st.integers(1, lmin_max))
     lmax = lmin + draw(st.integers(1, 2))
@@ -250,6 +250,18 @@ def st_dw_case(draw, tier="quick", versions=(6, 6, 6, 2, 3, 7, 8), maxdim=3, lmi
     c = apply_boxscale(c, st_boxscale(draw, dim) if scales else None)
     if bounds_forms and not c.get("boxscale"):
         c["bounds"] = st_bounds_form(draw, c)
+    if fbt and draw(st.integers(0, 5)) == 0:
+        # constructor option force_balanced_refinement_tree (siblings added to the component grids); its callers (the
+        # extrapolation notebooks) use it with boundary points and rebalancing switched off, and without boundary points
+        # the library's own assertion in find_missing_point fires after one refinement step (d=1, lmin 1, lmax 2)
+        # Refinement decisions come from the library's own estimator there: it rates the two intervals next to a point
+        # together, whereas an arbitrary errorOperator can refine a single interval next to the domain border, after which
+        # find_missing_point runs into its "should never happen" assertion (observed; the option is not made for that).
+        c["fbt"] = True
+        c["boundary"] = True
+        c["rebalancing"] = False
+        c["estimator"] = "library"
+        c["maxsteps"] = draw(st.sampled_from([8, 12, 16, 25]))
     return c
 
 
@@ -415,7 +427,8 @@ def build_dw(case, f, reference=None, grid=None, **extra):
     op = Integration(f, grid=grid, dim=case["dim"], reference_solution=reference, print_level=Q, log_level=Q)
     sa = SpatiallyAdaptiveSingleDimensions2(a, b, operation=op, version=case["version"], rebalancing=case["rebalancing"],
                                             margin=case["margin"], rebalancing_safety_factor=case["safety"],
-                                            print_level=Q, log_level=Q, **dict({} if case.get("dim_adaptive", True) else {"dim_adaptive": False}, **extra))
+                                            print_level=Q, log_level=Q, **dict({} if case.get("dim_adaptive", True) else {"dim_adaptive": False},
+                                                                               **dict({"force_balanced_refinement_tree": True} if case.get("fbt") else {}, **extra)))
     return sa, op
 
 
@@ -508,7 +521,7 @@ def harness_clock(clock):
         sab.time = old
 
 
-def run_history(sa, case, on_eval=None, before_refine=None, after_refine=None, clean_stop=False, **kw):
+def run_history(sa, case, on_eval=None, before_refine=None, after_refine=None, clean_stop=False, tol=-1, **kw):
     """Runs performSpatiallyAdaptiv with tol=-1 until max_evaluations or maxsteps refinement steps.
 
     on_eval(k) is called after the k-th evaluate_operation (k = 0, 1, ...), before_refine(k)/after_refine(k) around
@@ -556,7 +569,7 @@ def run_history(sa, case, on_eval=None, before_refine=None, after_refine=None, c
                 for inc in list(legs) + [10 ** 9]:
                     res = sa.continue_adaptive_refinement(tol=-1, max_evaluations=sa.get_total_num_points() + int(inc))
             else:
-                res = sa.performSpatiallyAdaptiv(case["lmin"], case["lmax"], error_operator(case), tol=-1,
+                res = sa.performSpatiallyAdaptiv(case["lmin"], case["lmax"], error_operator(case), tol=tol,
                                                  max_evaluations=case["maxev"] if clean_stop else 10 ** 9,
                                                  print_output=False, **kw)
     except StopHistory:
